@@ -168,13 +168,22 @@ JVParse(e) ==
   \cup Chk(e.deser.out = e.out /\ (e.out = "ok" => e.deser.val = e.val), "C05:serde-deserialize-agrees")
   \* ---- C12
   \cup (IF e.out = "ok" THEN
-            Chk(e.print = PrintVersion(e.val), "C12:print")
-       \cup Chk(e.re.out = "ok" /\ e.re.val = e.val, "C12:reparse-equal-five-fields")
-       \cup Chk(e.print2 = e.print, "C12:fixed-point")
-       \cup Chk(e.json = <<34>> \o e.print \o <<34>>, "C12:json-is-printed-string")
-       \cup Chk(e.jback.out = "ok" /\ e.jback.val = e.val, "C12:json-roundtrip")
-       \cup Chk(\A k \in Idx(e.jroutes) : e.jroutes[k].out = "ok" /\ e.jroutes[k].val = e.val, "C12:json-roundtrip-other-routes")
-       \cup Chk(e.ispre = IsPre(e.val), "X:is-prerelease")
+          LET plain ==
+                 Chk(e.print = PrintVersion(e.val), "C12:print")
+            \cup Chk(e.re.out = "ok" /\ e.re.val = e.val, "C12:reparse-equal-five-fields")
+            \cup Chk(e.print2 = e.print, "C12:fixed-point")
+            \cup Chk(e.json = <<34>> \o e.print \o <<34>>, "C12:json-is-printed-string")
+            \cup Chk(e.jback.out = "ok" /\ e.jback.val = e.val, "C12:json-roundtrip")
+            \cup Chk(\A k \in Idx(e.jroutes) : e.jroutes[k].out = "ok" /\ e.jroutes[k].val = e.val, "C12:json-roundtrip-other-routes")
+              \* Named deviation "PrintedFormExceedsMaxLength" (known finding): a text of exactly MAX_LENGTH bytes that
+              \* was accepted with its prerelease written without the hyphen prints one byte longer, and the printed
+              \* form is then refused as too long.  Everything else about the round trip must still hold.
+              explained == /\ Len(PrintVersion(e.val)) > MAX_LENGTH
+                           /\ e.print = PrintVersion(e.val)
+                           /\ e.json = <<34>> \o e.print \o <<34>>
+                           /\ e.re.out = "err" /\ e.re.err.kind = "MaxLengthError"
+          IN (IF plain = {} THEN {} ELSE IF explained THEN {"C12:reparse@PrintedFormExceedsMaxLength"} ELSE plain)
+             \cup Chk(e.ispre = IsPre(e.val), "X:is-prerelease")
         ELSE {})
   \* ---- C17
   \cup (IF e.out = "err" THEN
